@@ -271,8 +271,24 @@ def lst5(units, R):
                  key='store:' + l['f'])
         elif l.get('k') in ('un', 'idx'):
             n += 1
-            R.ob('LST5', fn, a, 'store through pointer %s' % expr_str(a)[:60], False, 'sorting writes through a raw pointer',
-                 key='rawstore:' + expr_str(l))
+            # a pointer-to-link cursor (cJSON **link = &result; ... link = &x->next) designates a local or a link field
+            ok = False
+            why = 'sorting writes through a raw pointer'
+            inner = strip_casts(l['e']) if l.get('k') == 'un' and l['op'] == '*' else None
+            if inner is not None and inner.get('k') == 'ref' and inner.get('dk') == 'local':
+                targets = [strip_casts(x['r']) for x in assignments(fn) if is_ref(x['l']) and strip_casts(x['l'])['d'] == inner['d']]
+                targets += [strip_casts(d['init']) for d in fn.locals() if d['d'] == inner['d'] and 'init' in d and not is_null_const(d['init'])]
+                targets = [t for t in targets if not is_null_const(t)]
+
+                def link_address(t):
+                    if t.get('k') != 'un' or t['op'] != '&':
+                        return False
+                    x = strip_casts(t['e'])
+                    return (x.get('k') == 'ref' and x.get('dk') == 'local') or (x.get('k') == 'mem' and x['f'] in ('next', 'prev'))
+                if targets and all(link_address(t) for t in targets):
+                    ok = True
+                    why = '%s only ever holds the address of a local or of a next/prev field' % inner['n']
+            R.ob('LST5', fn, a, 'store through pointer %s' % expr_str(a)[:60], ok, why, key='rawstore:' + expr_str(l))
     for c in fn.calls():
         cn = callee_name(c)
         n += 1
